@@ -29,6 +29,7 @@ class Fn:
         loop_open=None,
         at_end=None,
         final_guards=0,
+        hoist=None,
     ):
         self.file = file
         self.path = path if isinstance(path, list) else [p.strip() for p in path.split("::")]
@@ -55,6 +56,9 @@ class Fn:
         self.at_end = at_end
         # R10: number of `P if G => A, _ => B` shapes to desugar
         self.final_guards = final_guards
+        # R11: dict(anchor, call, name, sig, spec, subst, final_guards, external_body): a closure invoked
+        # on the spot is emitted as a method of its own (with its own contract)
+        self.hoist = hoist
 
 
 class Type:
@@ -128,6 +132,22 @@ def emit(unit):
             cnt = s[2] if len(s) > 2 else 1
             rx = len(s) > 3 and s[3] == "re"
             rw.subst(old, new, cnt, regex=rx)
+        hoisted = None
+        if isinstance(it, Fn) and it.hoist:
+            h = it.hoist
+            body = rw.hoist_closure(h["anchor"], h["call"])
+            hrw = Rewriter("fn %s%s %s" % (h["name"], h["sig"], body), label + " :: closure " + h["name"])
+            for s in h.get("subst", []):
+                hrw.subst(s[0], s[1], s[2] if len(s) > 2 else 1, regex=len(s) > 3 and s[3] == "re")
+            for _ in range(h.get("final_guards", 0)):
+                if not hrw.desugar_final_guard():
+                    raise ExtractError("%s: R10 requested in hoisted closure but shape not found" % label)
+            hrw.splice_fn(h.get("ret", "r"), h.get("spec", ""), {}, h.get("before", []))
+            hrw.hit("R11")
+            if h.get("external_body"):
+                hrw.text = "#[verifier::external_body]\n" + hrw.text
+                hrw.hit("ASSUMED-external_body")
+            hoisted = (hrw, h)
         if isinstance(it, Fn):
             for _ in range(getattr(it, "final_guards", 0)):
                 if not rw.desugar_final_guard():
@@ -160,6 +180,11 @@ def emit(unit):
                 "orig_lines": [sf.text.count("\n", 0, a) + 1, sf.text.count("\n", 0, b) + 1],
             }
             chunks.append((container_name(it), rw.text, meta))
+            if hoisted:
+                hrw, h = hoisted
+                hmeta = dict(meta)
+                hmeta.update({"sha_emitted": sha(hrw.text), "rules": hrw.rules, "name": h["name"], "assumed": bool(h.get("external_body")), "hoisted_from": it.rename or it.name})
+                chunks.append((container_name(it), hrw.text, hmeta))
         else:
             text = rw.text
             if it.derive:
